@@ -150,6 +150,11 @@ func runCalcCase(c CalcCase, r *rand.Rand) []CalcObs {
 		// the same case at the unit scale, at a large scale, and at the scale of a very large group (memory unit 1 TiB: request totals
 		// beyond 2^63 / 1e5 milli-bytes, where any widening of the code's integer arithmetic by a factor 100 wraps); ratios stay exact
 		for _, sc := range []int{1, 37, 1 << 20} {
+			// Quantity.MilliValue() is an int64: beyond 8 388 TiB it saturates in the unchanged code as well (documented limit of the
+			// quantity type, DESIGN 12.6), so the 1 TiB scale is applied only where every milli-value stays representable
+			if sc == 1<<20 && (c.Rm > 8000 || c.N*c.Km > 8000 || c.Km > 8000) {
+				continue
+			}
 			cpuU, memU := int64(100*sc), int64(sc)<<20
 			o := CalcObs{Ev: "calc", Src: c.Src, Case: c, Scale: sc, Totals: [][2]int64{}, Styles: []int{}}
 			q := func(v int, u int64, milli bool) resource.Quantity {
